@@ -25,17 +25,22 @@ pub fn shuffle<T>(t: &mut Tape, v: &mut [T]) {
     }
 }
 
-fn quantise(w: f64, dyadic: bool, t: &mut Tape) -> f64 {
+/// denominator of the weight grid of one graph: dyadic grids (sums exact in f64) or decimal-like grids whose
+/// sums are inexact and frequently land one ulp away from integers / half-integers
+fn pick_den(dyadic: bool, t: &mut Tape) -> f64 {
     if dyadic {
-        (w * 64.0).round().max(1.0) / 64.0
-    } else {
-        // decimal-like rationals that are not exact in binary
-        match t.below(3) {
-            0 => (w * 100.0).round().max(1.0) / 100.0,
-            1 => (w * 14.0).round().max(1.0) / 14.0,
-            _ => (w * 30.0).round().max(1.0) / 30.0,
+        // integer and half-integer propagator powers are what users actually pass: keep them frequent
+        if t.chance(0.25) {
+            2.0
+        } else {
+            64.0
         }
+    } else {
+        *t.pick(&[10.0, 100.0, 10.0, 20.0, 14.0, 30.0, 3.0, 6.0, 7.0, 5.0])
     }
+}
+fn quantise(w: f64, den: f64) -> f64 {
+    (w * den).round().max(1.0) / den
 }
 
 /// draw weights so that the *reference* accepts the graph (all proper omegas > min_omega, dod > min_dod);
@@ -43,6 +48,7 @@ fn quantise(w: f64, dyadic: bool, t: &mut Tape) -> f64 {
 pub fn fit_weights(t: &mut Tape, g: &mut G, dyadic: bool, min_omega: f64, need_pos_dod: bool, attempts: usize) -> bool {
     let ne = g.nedges();
     let l = g.num_loops();
+    let den = pick_den(dyadic, t);
     // constructive first attempt: the interval of uniform weights for which the reference accepts
     if attempts > 2 && t.chance(0.6) {
         if let Some((lo, hi)) = uniform_weight_interval(g, min_omega) {
@@ -50,7 +56,7 @@ pub fn fit_weights(t: &mut Tape, g: &mut G, dyadic: bool, min_omega: f64, need_p
             let w0 = lo + f * (hi - lo);
             for spread in [0.25, 0.08, 0.0] {
                 let ws: Vec<f64> = (0..ne).map(|_| w0 * (1.0 + spread * t.uniform(-1.0, 1.0))).collect();
-                g.weights = ws.into_iter().map(|w| quantise(w, dyadic, t)).collect();
+                g.weights = ws.into_iter().map(|w| quantise(w, den)).collect();
                 if g.min_proper_omega() > min_omega && (!need_pos_dod || g.dod() > min_omega.max(1e-3)) {
                     return true;
                 }
@@ -63,7 +69,7 @@ pub fn fit_weights(t: &mut Tape, g: &mut G, dyadic: bool, min_omega: f64, need_p
         if att + 1 == attempts && attempts > 2 {
             // last resort: heavy weights (accepted whenever no proper subset is mass-momentum spanning)
             let ws: Vec<f64> = (0..ne).map(|_| g.d as f64 / 2.0 + t.uniform(0.02, 0.6)).collect();
-            g.weights = ws.into_iter().map(|w| quantise(w, dyadic, t)).collect();
+            g.weights = ws.into_iter().map(|w| quantise(w, den)).collect();
             let ok = g.min_proper_omega() > min_omega && (!need_pos_dod || g.dod() > min_omega.max(1e-3));
             return ok;
         }
@@ -71,7 +77,7 @@ pub fn fit_weights(t: &mut Tape, g: &mut G, dyadic: bool, min_omega: f64, need_p
         let spread = *t.pick(&[0.9, 0.5, 0.2, 0.0]);
         let base = (l as f64 * g.d as f64 / 2.0 + target) / ne as f64;
         let ws: Vec<f64> = (0..ne).map(|_| base * (1.0 + spread * (t.uniform(-0.4, 0.5)))).collect();
-        g.weights = ws.into_iter().map(|w| quantise(w, dyadic, t)).collect();
+        g.weights = ws.into_iter().map(|w| quantise(w, den)).collect();
         let ok = g.min_proper_omega() > min_omega && (!need_pos_dod || g.dod() > min_omega.max(1e-3));
         if ok {
             return true;
